@@ -24,9 +24,11 @@ static const struct start starts[] = {
 };
 #define NSTART ((int) (sizeof starts / sizeof *starts))
 
-enum { OP_OK_MD5, OP_OK_DES, OP_OK_SHA256, OP_FAIL_BADCHAR, OP_TOOLONG, OP_NULLSETTING, OP_FREE_RESET, OP_GENSALT_OK, OP_GENSALT_FAIL, OP_FAIL_UNKNOWN, OP_OK_MD5_ALLOCFAIL, OP_GENSALT_ALLOCFAIL, NOPS };
+enum { OP_OK_MD5, OP_OK_DES, OP_OK_SHA256, OP_FAIL_BADCHAR, OP_TOOLONG, OP_NULLSETTING, OP_FREE_RESET, OP_GENSALT_OK, OP_GENSALT_FAIL, OP_FAIL_UNKNOWN, OP_OK_MD5_ALLOCFAIL, OP_GENSALT_ALLOCFAIL,
+  OP_OK_MD5_ALLOCFAIL2, NOPS };
 static const char *const opname[NOPS] = { "ra(md5)", "ra(des)", "ra(sha256)", "ra(bad-char)", "ra(600-byte phrase)", "ra(NULL setting)", "caller-free+reset",
-  "gensalt_ra(ok)", "gensalt_ra(unknown prefix)", "ra(unknown prefix)", "ra(md5) while the allocator fails", "gensalt_ra(ok) while the allocator fails" };
+  "gensalt_ra(ok)", "gensalt_ra(unknown prefix)", "ra(unknown prefix)", "ra(md5) while the allocator fails", "gensalt_ra(ok) with each of its allocator requests failing in turn",
+  "ra(md5) with a second allocator request (if any) failing" };
 static char expect[3][CRYPT_OUTPUT_SIZE];
 static char longphrase[601];
 
@@ -37,10 +39,31 @@ static int size;
 /* wipe-before-grow observation */
 static int grow_seen, grow_dirty;
 static int recorded_at_call;
+static const void *watch_ptr;  /* the caller's block as it was when the call started */
+static int request_seen, request_dirty;
+/* at the moment the library first asks the allocator for memory, an undersized block must already be erased */
+static void
+on_request (int kind, size_t n)
+{
+  (void) kind;
+  (void) n;
+  if (request_seen)
+    return;
+  request_seen = 1;
+  struct vh_blk *b = watch_ptr ? vh_ledger_find (watch_ptr) : 0;
+  if (b && recorded_at_call > 0 && recorded_at_call < OBJ)
+    {
+      size_t lim = (size_t) recorded_at_call < b->n ? (size_t) recorded_at_call : b->n;
+      for (size_t i = 0; i < lim; i++)
+        if (((const unsigned char *) watch_ptr)[i])
+          request_dirty = 1;
+    }
+}
+
 static void
 on_release (const void *p, size_t n, int kind)
 {
-  if (kind != 'r' || p != data)
+  if ((kind != 'r' && kind != 'f') || p != watch_ptr)
     return;
   grow_seen = 1;
   if (recorded_at_call > 0)
@@ -124,49 +147,67 @@ apply (int op, int check, const char *trace, int si)
     }
   if (op == OP_GENSALT_OK || op == OP_GENSALT_FAIL || op == OP_GENSALT_ALLOCFAIL)
     {
-      vh_req_count = 0;
-      vh_fail_at[0] = op == OP_GENSALT_ALLOCFAIL ? 1 : 0;
-      vh_seam_armed = 1;
-      errno = 0;
-      char *g = crypt_gensalt_ra (op != OP_GENSALT_FAIL ? "$1$" : "$9$", 0, "0123456789abcdef", 16);
-      vh_seam_armed = 0;
-      vh_fail_at[0] = 0;
-      vh_stat ("evaluations", 1);
       int bad = 0;
-      if (check)
+      /* OP_GENSALT_ALLOCFAIL: fault position k = 1, 2, ... until a run makes fewer than k requests (that run has no fault) */
+      for (long kpos = op == OP_GENSALT_ALLOCFAIL ? 1 : 0; kpos <= 8 && !bad; kpos++)
         {
-          if (op == OP_GENSALT_OK && (!g || strncmp (g, "$1$", 3)))
-            bad = 1;
-          if (op != OP_GENSALT_OK && g)
-            bad = 1;
-          if (!g && vh_ledger_live (0) != live_before)
-            bad = 2;            /* NULL with something allocated */
-          if (g && (vh_ledger_live (0) != live_before + 1 || !vh_ledger_find (g) || vh_ledger_find (g)->n < strlen (g) + 1))
-            bad = 3;            /* result is not a live malloc block */
-          if (vh_bad_free != badfree_before)
-            bad = 4;
-          if (bad)
-            {
-              snprintf (sig, sizeof sig, "gensalt_ra-protocol/%d", bad);
-              vh_viol (sig, "%s,\"result\":%s,\"live_before\":%d,\"live_after\":%d}", cj, vh_jstr (g), live_before, vh_ledger_live (0));
-            }
-        }
-      if (g)
-        {
+          vh_req_count = 0;
+          vh_fail_at[0] = kpos;
           vh_seam_armed = 1;
-          free (g);
+          errno = 0;
+          char *g = crypt_gensalt_ra (op != OP_GENSALT_FAIL ? "$1$" : "$9$", 0, "0123456789abcdef", 16);
           vh_seam_armed = 0;
+          vh_fail_at[0] = 0;
+          vh_stat ("evaluations", 1);
+          int faulted = kpos && vh_req_count >= kpos;
+          if (kpos)
+            vh_stat (faulted ? "gensalt_ra_fault_positions" : "gensalt_ra_unfaulted_runs", 1);
+          if (check)
+            {
+              int want = op != OP_GENSALT_FAIL && !faulted;
+              if (want && (!g || strncmp (g, "$1$", 3)))
+                bad = 1;
+              if (!want && g)
+                bad = 1;
+              if (!g && vh_ledger_live (0) != live_before)
+                bad = 2;            /* NULL with something allocated */
+              if (g && (vh_ledger_live (0) != live_before + 1 || !vh_ledger_find (g) || vh_ledger_find (g)->n < strlen (g) + 1))
+                bad = 3;            /* result is not a live malloc block */
+              if (vh_bad_free != badfree_before)
+                bad = 4;
+              if (bad)
+                {
+                  snprintf (sig, sizeof sig, "gensalt_ra-protocol/%d", bad);
+                  vh_viol (sig, "%s,\"result\":%s,\"live_before\":%d,\"live_after\":%d,\"failed_request\":%ld,\"requests\":\"%s\"}", cj, vh_jstr (g), live_before, vh_ledger_live (0),
+                           faulted ? kpos : 0L, vh_req_log);
+                }
+            }
+          if (g && vh_ledger_find (g))
+            {
+              vh_seam_armed = 1;
+              free (g);
+              vh_seam_armed = 0;
+            }
+          /* whatever a broken tree left behind must not poison the states explored after this one */
+          for (int i = 0; i < vh_nledger; i++)
+            if (vh_ledger[i].live && vh_ledger[i].p != data && bad)
+              vh_ledger[i].live = 0;
+          if (!kpos || !faulted)
+            break;
         }
       return bad != 0;
     }
   const char *phrase = op == OP_TOOLONG ? longphrase : "pw";
-  const char *setting = op == OP_OK_MD5 || op == OP_TOOLONG || op == OP_OK_MD5_ALLOCFAIL ? vh_cheap[M_MD5][0] : op == OP_OK_DES ? vh_cheap[M_DES][0] : op == OP_OK_SHA256 ? vh_cheap[M_SHA256][0]
+  const char *setting = op == OP_OK_MD5 || op == OP_TOOLONG || op == OP_OK_MD5_ALLOCFAIL || op == OP_OK_MD5_ALLOCFAIL2 ? vh_cheap[M_MD5][0] : op == OP_OK_DES ? vh_cheap[M_DES][0] : op == OP_OK_SHA256 ? vh_cheap[M_SHA256][0]
     : op == OP_FAIL_BADCHAR ? "$1$sa:lt" : op == OP_FAIL_UNKNOWN ? "$9$salt" : 0;
   grow_seen = grow_dirty = 0;
   recorded_at_call = size;
   vh_on_release = on_release;
+  vh_on_request = on_request;
+  watch_ptr = data;
+  request_seen = request_dirty = 0;
   vh_req_count = 0;
-  vh_fail_at[0] = op == OP_OK_MD5_ALLOCFAIL ? 1 : 0;
+  vh_fail_at[0] = op == OP_OK_MD5_ALLOCFAIL ? 1 : op == OP_OK_MD5_ALLOCFAIL2 ? 2 : 0;
   vh_seam_armed = 1;
   errno = 0;
   int k = VH_TRY (0);
@@ -179,6 +220,8 @@ apply (int op, int check, const char *trace, int si)
   vh_seam_armed = 0;
   vh_fail_at[0] = 0;
   vh_on_release = 0;
+  vh_on_request = 0;
+  long reqs = vh_req_count;
   vh_stat ("evaluations", 1);
   if (!check)
     return 0;
@@ -190,6 +233,35 @@ apply (int op, int check, const char *trace, int si)
     }
   /* ---- protocol model ---- */
   int must_grow = before_ptr == 0 || before_size < 0 || before_size < OBJ;
+  if (request_dirty)
+    {
+      snprintf (sig, sizeof sig, "crypt_ra-protocol/undersized block not yet erased when the library asked the allocator for its replacement");
+      vh_viol (sig, "%s,\"before\":{\"real\":%ld,\"recorded\":%d}}", cj, before_real, before_size);
+      return 1;
+    }
+  if (op == OP_OK_MD5_ALLOCFAIL2 && reqs >= 2)
+    {
+      /* a second request exists and failed: no result, ENOMEM, and the pair still sound and owned by the caller */
+      struct vh_blk *nb = data ? vh_ledger_find (data) : 0;
+      const char *w = 0;
+      if (r)
+        w = "result returned although an allocation failed";
+      else if (err != ENOMEM)
+        w = "errno is not ENOMEM after a failed allocation";
+      else if (data && !nb)
+        w = "*data is not a live block after a failed allocation";
+      else if (nb && size > 0 && (long) nb->n < (long) size && size >= OBJ)
+        w = "*size exceeds the real block after a failed allocation";
+      else if (vh_ledger_live (0) != (data ? 1 : 0) || vh_bad_free != badfree_before)
+        w = "a block is live but not reachable through *data (or was freed twice) after a failed allocation";
+      if (w)
+        {
+          snprintf (sig, sizeof sig, "crypt_ra-protocol/%s", w);
+          vh_viol (sig, "%s,\"requests\":\"%s\",\"errno\":%d}", cj, vh_req_log, err);
+          return 1;
+        }
+      return 0;
+    }
   if (op == OP_OK_MD5_ALLOCFAIL && must_grow)
     {
       /* the single allocator request failed: NULL, ENOMEM, the caller's pair untouched and still owned by the caller */
@@ -228,8 +300,8 @@ apply (int op, int check, const char *trace, int si)
         why = "*data is not a live malloc block after the call";
       else if (size < OBJ || (long) ab->n < (long) size)
         why = "*size is below sizeof(struct crypt_data) or above the real block size";
-      else if (before_ptr && !grow_seen)
-        why = "an undersized block was not passed to realloc";
+      else if (before_ptr && !grow_seen && vh_ledger_find (before_ptr) && data != before_ptr)
+        why = "the undersized block was neither released nor kept";
       else if (grow_dirty)
         why = "undersized block was not erased before reallocating it";
       else if (vh_ledger_live (0) != (before_ptr ? live_before : live_before + 1))
@@ -248,8 +320,8 @@ apply (int op, int check, const char *trace, int si)
     }
   if (!why && vh_bad_free != badfree_before)
     why = "free/realloc of a pointer that is not a live block";
-  int want_ok = op <= OP_OK_SHA256 || op == OP_OK_MD5_ALLOCFAIL;
-  if (!why && want_ok && (!r || strcmp (r, expect[op == OP_OK_MD5_ALLOCFAIL ? 0 : op])))
+  int want_ok = op <= OP_OK_SHA256 || op == OP_OK_MD5_ALLOCFAIL || op == OP_OK_MD5_ALLOCFAIL2;
+  if (!why && want_ok && (!r || strcmp (r, expect[op >= OP_OK_MD5_ALLOCFAIL ? 0 : op])))
     why = "valid request failed or returned a different hash";
   if (!why && !want_ok && r)
     why = "invalid request returned a result";
